@@ -137,7 +137,10 @@ class GridInterpolationKernel(GridKernel):
         batch_shape = inputs.shape[:-2]
 
         inputs = inputs.reshape(-1, n_dimensions)
-        interp_indices, interp_values = Interpolation().interpolate(self.grid, inputs)
+        # Interpolation.interpolate numbers the grid nodes with its first dimension slowest, whereas the inducing
+        # grid (create_data_from_grid, GridKernel's Kronecker product) is enumerated with the first dimension
+        # fastest: hand the dimensions over in reverse order so that the flat indices address the right nodes
+        interp_indices, interp_values = Interpolation().interpolate(self.grid[::-1], inputs.flip(-1))
         interp_indices = interp_indices.view(*batch_shape, n_data, -1)
         interp_values = interp_values.view(*batch_shape, n_data, -1)
         return interp_indices, interp_values
